@@ -406,6 +406,18 @@ func (w *world) dumpState() {
 	w.stats["state"]++
 }
 
+// patience: how long to wait for the listener's goroutines (an answer to a SYN, the tables
+// settling after the reset).  It normally takes well under a millisecond; after a few waits have
+// run out (a broken stack) the remaining ones are cut short so that the run still ends.
+var timeouts int
+
+func patience() time.Duration {
+	if timeouts >= 3 {
+		return 300 * time.Millisecond
+	}
+	return 8 * time.Second
+}
+
 // ---------------------------------------------------------------- packets
 
 type reply struct {
@@ -544,10 +556,13 @@ func (w *world) inject(p pkt) {
 	classify(w.tcpFrames())
 	if p.trans == pTCP && tcpin && p.flags == netx.FlagSyn && rep == 0 {
 		// a real tcp endpoint took the SYN: its answer comes from the listener's goroutines
-		deadline := time.Now().Add(10 * time.Second)
+		deadline := time.Now().Add(patience())
 		for rep == 0 && time.Now().Before(deadline) {
 			time.Sleep(50 * time.Microsecond)
 			classify(w.tcpFrames())
+		}
+		if rep == 0 {
+			timeouts++
 		}
 	}
 	if p.trans == pTCP && tcpin {
@@ -564,7 +579,7 @@ func (w *world) inject(p pkt) {
 		if rep == 2 {
 			want = leakOne(w.s, addrs0, p)
 		}
-		deadline := time.Now().Add(10 * time.Second)
+		deadline := time.Now().Add(patience())
 		for {
 			gone := true
 			for _, r := range w.s.VerifRegs() {
@@ -577,6 +592,7 @@ func (w *world) inject(p pkt) {
 			}
 			if time.Now().After(deadline) {
 				quiet = false
+				timeouts++
 				if os.Getenv("C09_DEBUG") != "" {
 					fmt.Fprintf(os.Stderr, "unquiet: gone=%v\n regs0=%v\n regs =%v\n addrs0=%v\n addrs =%v\n", gone, regs0, w.regsSnapshot(), addrs0, w.addrsSnapshot())
 				}
@@ -988,17 +1004,45 @@ func history(r *gen.Rng, steps int, linger bool, stats map[string]int) string {
 	return "Hist [" + strings.Join(w.evs, "; ") + "]"
 }
 
+// demoLinger: the scripted history behind the candidate finding "C09-lingering-address": an
+// address removed from the NIC keeps accepting packets while (and, after a reconnect, for ever
+// after) a connected udp socket's route references its network endpoint.
+func demoLinger(stats map[string]int) string {
+	w := newWorld(gen.New(1), true, stats)
+	A, R := local4[1][0], foreign4[0]
+	w.addAddr(1, pV4, A)
+	w.addAddr(1, pV4, local4[1][1])
+	s0 := w.newSock(pUDP, pV4)
+	w.bind(s0, 0, "", 80)
+	s1 := w.newSock(pUDP, pV4)
+	w.bind(s1, 0, A, 53)
+	w.connect(s1, 0, R, 7)
+	w.connect(s1, 0, R, 8) // the first route's reference is never released
+	w.closeSock(s1)
+	w.dumpState()
+	w.removeAddr(1, A)
+	w.dumpState()
+	w.inject(pkt{nic: 1, net: pV4, src: R, dst: A, trans: pUDP, sport: 7, dport: 80})
+	w.dumpState()
+	return "Hist [" + strings.Join(w.evs, "; ") + "]"
+}
+
 func main() {
 	log.SetOutput(io.Discard)
 	seed := flag.Uint64("seed", 1, "seed")
 	n := flag.Int("n", 300, "number of histories")
 	steps := flag.Int("steps", 44, "operations per history after the configuration")
 	linger := flag.Bool("linger", false, "also remove addresses that open routes still reference")
+	demo := flag.String("demo", "", "print one scripted history instead: linger")
 	flag.Parse()
 	rand.Seed(int64(*seed)) // ports.PickEphemeralPort draws from the global source
 	out := bufio.NewWriter(os.Stdout)
 	defer out.Flush()
 	stats := map[string]int{}
+	if *demo == "linger" {
+		fmt.Fprintln(out, demoLinger(stats))
+		return
+	}
 	r := gen.New(*seed)
 	for i := 0; i < *n; i++ {
 		st := *steps
